@@ -838,6 +838,11 @@ class Host(HostBase):
         return
 
     def opaque_call(self, recv: Any, name: str, args: List[AV], kwargs: Dict[str, AV], node: Any) -> AV:
+        oh = self.i.hooks.get("__opaque_call__")
+        if oh is not None:
+            r = oh(self.i, recv, name, args, kwargs, node)
+            if r is not NotImplemented:
+                return r
         t = Term("call", (recv, name, tuple(args), tuple(sorted(kwargs.items()))), self.ctx.new_id())
         self.i.opaque_calls.append(t)
         return t
